@@ -87,6 +87,10 @@ type C11Claims struct {
 	NoKid, NoSub  bool
 	Nbf           int64 // 0 = absent
 	Jti           string
+	// raw JSON spellings of the numbers (e.g. "1790000000.75"); "" = plain integer
+	ExpText, IatText string
+	// raw additional members of the payload object, e.g. `"scope":"condor:/READ"`
+	Extra string
 }
 
 // C11MintToken builds header.payload.sig. Field order is fixed (hand-written
@@ -109,13 +113,24 @@ func C11MintToken(rawKey []byte, c C11Claims) (token string) {
 		p = append(p, `"jti":`+q(c.Jti))
 	}
 	if !c.NoIat {
-		p = append(p, `"iat":`+c11itoa(c.Iat))
+		if c.IatText != "" {
+			p = append(p, `"iat":`+c.IatText)
+		} else {
+			p = append(p, `"iat":`+c11itoa(c.Iat))
+		}
 	}
 	if !c.NoExp {
-		p = append(p, `"exp":`+c11itoa(c.Exp))
+		if c.ExpText != "" {
+			p = append(p, `"exp":`+c.ExpText)
+		} else {
+			p = append(p, `"exp":`+c11itoa(c.Exp))
+		}
 	}
 	if c.Nbf != 0 {
 		p = append(p, `"nbf":`+c11itoa(c.Nbf))
+	}
+	if c.Extra != "" {
+		p = append(p, c.Extra)
 	}
 	pay := "{" + strings.Join(p, ",") + "}"
 	si := C11B64([]byte(hdr)) + "." + C11B64([]byte(pay))
@@ -335,6 +350,16 @@ type C11Verdict struct {
 // margin is the guard band (seconds) around time boundaries inside which the
 // verdict is "either" (the harness never asserts on sub-second boundaries).
 func C11VerifyOracle(token string, keys map[string][]byte, now, maxAge, margin int64) C11Verdict {
+	return C11VerifyOracleSoft(token, keys, nil, now, maxAge, margin)
+}
+
+// C11VerifyOracleSoft additionally takes the key ids on which the statement is
+// silent: other SPELLINGS of a held key or of a file below the key directory
+// (./k1, ../<keydir>/k1, sub/inner, ...), mapped to the key that spelling
+// reaches. A token that verifies under such a key is "either". A kid that is in
+// neither map names no key the server holds - whatever file a path resolution
+// of it might reach - and the verdict is "reject".
+func C11VerifyOracleSoft(token string, keys, silent map[string][]byte, now, maxAge, margin int64) C11Verdict {
 	t := strings.TrimSpace(token)
 	padded := t != token
 	parts := strings.Split(t, ".")
@@ -360,6 +385,12 @@ func C11VerifyOracle(token string, keys map[string][]byte, now, maxAge, margin i
 		}
 	}
 	key, ok := keys[kid]
+	silentKid := false
+	if !ok {
+		if k, is := silent[kid]; is {
+			key, ok, silentKid = k, true, true
+		}
+	}
 	if !ok {
 		if _, isStr := hdr["kid"].(string); !isStr && hdr["kid"] != nil {
 			// statement silent on whether a non-string kid falls back to POOL; the
@@ -440,6 +471,9 @@ func C11VerifyOracle(token string, keys map[string][]byte, now, maxAge, margin i
 	}
 	if v.Sub == "" {
 		soft("no subject")
+	}
+	if silentKid {
+		soft("key id is another spelling of a held key / a file below the key directory")
 	}
 	if C11B64(sig) != parts[2] || padded {
 		soft("non-canonical encoding of a verifying signature / surrounding white space")
